@@ -107,7 +107,7 @@ def _run(job):
                     G.reset()
                     ctx0 = Ctx(f, job["model"])
                     ctx0.cmp_log = []
-                ctx = run.analyze_fn(f, m, job["model"], pre=_PRE.get(job.get("pre")), keep_paths=job.get("post") in ("cutoff", "slow"), ctx=ctx0)
+                ctx = run.analyze_fn(f, m, job["model"], pre=_PRE.get(job.get("pre")), keep_paths=job.get("post") in ("cutoff", "slow") or (job.get("post") == "truncation" and job["target"].endswith("parse_mantissa")), ctx=ctx0)
                 if job.get("post") == "slow":
                     run.slow_postconditions(ctx, m, f)
                 # post-conditions read atoms of the exit states: evaluate them before the next analysis resets the atom tables
